@@ -17,7 +17,6 @@ Inductive rtres (A : Type) := RtOk (a : A) | RtErr | RtPanic.
 Arguments RtOk {A}. Arguments RtErr {A}. Arguments RtPanic {A}.
 
 Definition show_int (ng : bool) (m : N) : list N := if ng then 45 :: show_N m else show_N m.
-Definition CRLF : list N := [13; 10].
 Fixpoint join (sep : list N) (l : list (list N)) : list N :=
   match l with [] => [] | [x] => x | x :: r => x ++ sep ++ join sep r end.
 
